@@ -122,6 +122,10 @@ pub struct PLife {
     pub steps: Vec<PStep>,
     /// (position in 0..=steps.len(), source, caught inside the scope)
     pub panic_at: Option<(u8, Source, bool)>,
+    /// the lifetime runs from tear-down code executed while the thread unwinds from a failed test
+    /// body: call-count verdicts at scope exit are not raised there, everything else is as usual
+    #[serde(default)]
+    pub in_teardown: bool,
 }
 
 #[derive(Serialize, Deserialize, Clone, Debug, Hash, PartialEq, Eq)]
@@ -267,7 +271,7 @@ pub fn execute(c: &PanicCase) -> PanicObs {
         let mut fakes_at_panic = 0u64;
         let mut call_mismatch: Option<String> = None;
         crate::worker::phase("lifetime");
-        let r = std::panic::catch_unwind(std::panic::AssertUnwindSafe(|| {
+        let mut body = || std::panic::catch_unwind(std::panic::AssertUnwindSafe(|| {
             ip::sut(|| {
                 let mut inj = InjectorPP::new();
                 let npos = l.steps.len();
@@ -356,12 +360,17 @@ pub fn execute(c: &PanicCase) -> PanicObs {
                 // scope exit: `inj` dropped here (call-count verification may panic)
             })
         }));
+        let r = if l.in_teardown { crate::worker::while_unwinding(body) } else { body() };
         ip::MODE.store(ip::MODE_PASS, SeqCst);
         ip::MPROTECT_FAIL_AT.store(0, SeqCst);
         ip::MPROTECT_FAIL_PAGE.store(0, SeqCst);
         lo.escaped = r.is_err();
-        lo.hook_invocations = crate::worker::PANIC_COUNT.load(SeqCst) - before;
+        // (the panic that started the unwinding the tear-down runs under is the harness's own)
+        lo.hook_invocations = crate::worker::PANIC_COUNT.load(SeqCst) - before - if l.in_teardown { 1 } else { 0 };
         lo.messages = crate::worker::panic_log_take();
+        if l.in_teardown && !lo.messages.is_empty() {
+            lo.messages.remove(0);
+        }
         lo.source_fired = source_fired;
         lo.fakes_installed_at_panic = fakes_at_panic;
         lo.call_mismatch = call_mismatch;
@@ -387,14 +396,14 @@ pub fn execute(c: &PanicCase) -> PanicObs {
         lo.fault_not_reached = env_fault && source_fired && ip::MMAP_FAILS.load(SeqCst) == 0 && ip::MPROTECT_FAILS.load(SeqCst) == 0;
         let uncaught_source = matches!(l.panic_at, Some((_, _, false))) && !lo.fault_not_reached;
         if lo.fault_not_reached {
-            let exit_fires = lo.pending_unsatisfied > 0;
+            let exit_fires = lo.pending_unsatisfied > 0 && !l.in_teardown;
             lo.predicted_panics = if exit_fires { 1 } else { 0 };
             lo.predicted_escape = exit_fires;
         } else if uncaught_source {
             lo.predicted_panics = 1;
             lo.predicted_escape = true;
         } else {
-            let exit_fires = lo.pending_unsatisfied > 0;
+            let exit_fires = lo.pending_unsatisfied > 0 && !l.in_teardown;
             lo.predicted_panics = caught_panics.max(if l.panic_at.is_some() { 1 } else { 0 }) + if exit_fires { 1 } else { 0 };
             lo.predicted_escape = exit_fires;
         }
@@ -491,9 +500,9 @@ pub fn strategy() -> impl Strategy<Value = PanicCase> {
         2 => Just(Source::MprotectFailurePersistent),
         2 => Just(Source::MprotectFailureSecondPage),
     ];
-    let life = (prop::collection::vec(step, 0..=7), prop::option::weighted(0.85, (0u8..=7, src, prop::bool::weighted(0.35)))).prop_map(|(steps, pa)| {
+    let life = (prop::collection::vec(step, 0..=7), prop::option::weighted(0.85, (0u8..=7, src, prop::bool::weighted(0.35))), prop::bool::weighted(0.1)).prop_map(|(steps, pa, in_teardown)| {
         let n = steps.len() as u8;
-        PLife { steps, panic_at: pa.map(|(p, s, c)| (p.min(n), s, c)) }
+        PLife { steps, panic_at: pa.map(|(p, s, c)| (p.min(n), s, c)), in_teardown }
     });
     prop::collection::vec(life, 1..=5).prop_map(|lifetimes| PanicCase { lifetimes })
 }
@@ -549,6 +558,9 @@ pub fn judge(rec: &mut Recorder, c: &PanicCase, ex: Exec, _hello: &Value) -> Res
             return rec.fail(&sig("wrong-call-result"), ctx(m.clone()));
         }
         rec.class(&format!("source/{srcname}"));
+        if l.in_teardown {
+            rec.class("lifetime-inside-tear-down-while-unwinding");
+        }
         if lo.source_fired && lo.fakes_installed_at_panic >= 1 {
             rec.nontrivial(&(l.panic_at, lo.fakes_installed_at_panic.min(4), lo.pending_satisfied, lo.pending_unsatisfied));
             rec.class("panic-while-fakes-installed");
